@@ -260,3 +260,34 @@ class Verdict:
             return 1
         log('[%s] ok: %s' % (self.pid, json.dumps({k: v for k, v in coverage.items() if isinstance(v, (int, bool))})))
         return 0
+
+
+def action_coverage(stdout, module='Swarm'):
+    """From `-coverage 1` output: which action definitions of spec/<module>.tla had any expression evaluated.
+    Returns (exercised, not_exercised) lists of definition names (H*/M*/Connect/Exit...)."""
+    src = open(os.path.join(SPEC, module + '.tla')).read().split('\n')
+    defs = []
+    for i, line in enumerate(src, 1):
+        m = re.match(r'^(H[A-Z]\w*|M[A-Z]\w*|Connect|Exit|P[A-Z]\w*)(\([^)]*\))? ==', line)
+        if m:
+            defs.append((i, m.group(1)))
+    hits = {}
+    for m in re.finditer(r'line (\d+), col \d+ to line \d+, col \d+ of module %s: (\d+)(?::(\d+))?' % module, stdout):
+        ln, a = int(m.group(1)), int(m.group(2))
+        if a > 0:
+            hits[ln] = True
+    ex, nex = [], []
+    for idx, (start, name) in enumerate(defs):
+        end = defs[idx + 1][0] if idx + 1 < len(src) and idx + 1 < len(defs) else len(src)
+        # the body of the definition ends at the first blank line; its last line is reached only when all
+        # earlier conjuncts held, i.e. when the action was actually taken
+        last = start
+        for l in range(start, end):
+            if src[l - 1].strip() == '' or src[l - 1].startswith('\\*') or src[l - 1].startswith('-----'):
+                break
+            last = l
+        if hits.get(last):
+            ex.append(name)
+        else:
+            nex.append(name)
+    return ex, nex
